@@ -345,7 +345,30 @@ func doReplay(t *testing.T, path string, known []KnownFinding) {
 		exitCode = 2
 		return
 	}
+	raceBefore := raceLogSize()
+	completed := false
+	defer func() {
+		// a race build's test function is ended by the race detector right after the racy bubble
+		if completed || inflight == nil || !raceBuild {
+			return
+		}
+		res := inflight.finish()
+		report := raceLogTail(raceBefore)
+		for _, l := range res.Trace {
+			fmt.Println("  " + l)
+		}
+		if report != "" && !raceInHarness(report) {
+			same := rf.Oracle == "data_race" && res.TraceHash == rf.TraceHash
+			fmt.Printf("%s\nREPLAY verdict=violation oracle=data_race trace_hash=%s identical=%v\n", truncateStr(report, 3000), res.TraceHash, same)
+			fmt.Printf("VIOLATION property=C29 replay=%s\n", path)
+			exitCode = 1
+		} else {
+			fmt.Printf("REPLAY verdict=infra test function aborted: %s\n", truncateStr(report, 1500))
+			exitCode = 2
+		}
+	}()
 	res := execute(t, rf.Check, rf.Tier, NewReplayTape(rf.Tape), true)
+	completed = true
 	for _, l := range res.Trace {
 		fmt.Println("  " + l)
 	}
